@@ -13,6 +13,7 @@
   `fix:` commit 18c0f8e (see `old_protocol_*` below for what the pinned code did).
 -/
 import BMV.Proofs.Hs
+import BMV.Proofs.HsLive
 namespace BMV.Props.C04
 open BMV.Hs
 
@@ -126,6 +127,88 @@ theorem streams_are_prefixes (k : Nat) (schs : List Sched) :
     rcases hall c hc with g | ⟨_, g⟩
     · rw [g, hs]; simp
     · rw [g, hs]; simp [List.range_succ]
+
+/-! ### liveness: no deadlock under any fair schedule
+
+`Fair k σ`: in the infinite schedule σ the producer and each of the k consumers reach their IO
+instruction on this bond again and again; how long each stays away (arbitrary other instructions,
+stalls, delays) and in which order they come back is arbitrary.  Then every value is eventually
+written and eventually held by every consumer — in the simulator and in the generated hardware.
+(With no consumer bonded to the output, `k = 0`, the producer waits for ever by design: the AND of
+no recv line is taken as low.) -/
+
+theorem no_deadlock_isa (k : Nat) (hk : 0 < k) (σ : Nat → Sched) (hf : Fair k σ) (n : Nat) :
+    ∃ t, n ≤ (Isa.runF σ (Isa.init k) t).next ∧
+      ∀ c ∈ (Isa.runF σ (Isa.init k) t).cs, n ≤ c.got.length := by
+  have hlen : (Isa.init k).cs.length = k := by simp [Isa.init]
+  have hex : ∀ n, ∃ t, n ≤ (Isa.runF σ (Isa.init k) t).next := by
+    intro n
+    induction n with
+    | zero => exact ⟨0, Nat.zero_le _⟩
+    | succ n ih =>
+      obtain ⟨t0, h0⟩ := ih
+      obtain ⟨t, ht⟩ := Isa.progress σ (Isa.init k) (Isa.inv_init k) (by rw [hlen]; exact hk) (by rw [hlen]; exact hf) t0
+      exact ⟨t, by omega⟩
+  obtain ⟨t, ht⟩ := hex n
+  refine ⟨t, ht, fun c hc => ?_⟩
+  obtain ⟨hsent, _, hcs, _⟩ := Isa.runF_inv σ (Isa.init k) (Isa.inv_init k) t
+  have hl : (Isa.runF σ (Isa.init k) t).sent.length = (Isa.runF σ (Isa.init k) t).next := by
+    rw [hsent]; simp
+  have := (hcs c hc).2
+  cases hv : (Isa.runF σ (Isa.init k) t).valid
+  · simp only [hv] at this
+    have e : c.got = (Isa.runF σ (Isa.init k) t).sent := by simpa using this
+    rw [e, hl]; exact ht
+  · simp only [hv, if_true] at this
+    rcases this with ⟨_, g⟩ | ⟨_, g⟩
+    · rw [g]; simp; omega
+    · rw [g, hl]; exact ht
+
+theorem no_deadlock_rtl (k : Nat) (hk : 0 < k) (σ : Nat → Sched) (hf : Fair k σ) (n : Nat) :
+    ∃ t, n ≤ (Rtl.runF σ (Rtl.init k) t).next ∧
+      ∀ c ∈ (Rtl.runF σ (Rtl.init k) t).cs, n ≤ c.got.length := by
+  have hlen : (Rtl.init k).cs.length = k := by simp [Rtl.init]
+  have hex : ∀ n, ∃ t, n ≤ (Rtl.runF σ (Rtl.init k) t).next := by
+    intro n
+    induction n with
+    | zero => exact ⟨0, Nat.zero_le _⟩
+    | succ n ih =>
+      obtain ⟨t0, h0⟩ := ih
+      obtain ⟨t, ht⟩ := Rtl.progress σ (Rtl.init k) (Rtl.inv_init k) (by rw [hlen]; exact hk) (by rw [hlen]; exact hf) t0
+      exact ⟨t, by omega⟩
+  obtain ⟨t, ht⟩ := hex n
+  refine ⟨t, ht, fun c hc => ?_⟩
+  obtain ⟨hsent, _, _, hcs, _⟩ := Rtl.runF_inv σ (Rtl.init k) (Rtl.inv_init k) t
+  have hl : (Rtl.runF σ (Rtl.init k) t).sent.length = (Rtl.runF σ (Rtl.init k) t).next := by
+    rw [hsent]; simp
+  have := hcs c hc
+  unfold Rtl.CInv at this
+  cases ho : ((Rtl.runF σ (Rtl.init k) t).waitsm && (Rtl.runF σ (Rtl.init k) t).oVal)
+  · simp only [ho] at this
+    have e : c.got = (Rtl.runF σ (Rtl.init k) t).sent := by simpa using this
+    rw [e, hl]; exact ht
+  · simp only [ho, if_true] at this
+    rcases this with ⟨_, g⟩ | ⟨_, g⟩
+    · rw [g]; simp; omega
+    · rw [g, hl]; exact ht
+
+/-- the infinite runs of the liveness theorems are the finite runs of the safety theorems -/
+theorem runF_is_run (σ : Nat → Sched) (k t : Nat) :
+    Isa.runF σ (Isa.init k) t = Isa.run (Isa.init k) ((List.range t).map σ) ∧
+    Rtl.runF σ (Rtl.init k) t = Rtl.run (Rtl.init k) ((List.range t).map σ) :=
+  ⟨Isa.runF_eq_run _ _ _, Rtl.runF_eq_run _ _ _⟩
+
+/-- the premise is satisfiable: e.g. everybody always eager; or a producer that shows up every
+    third tick with consumers that alternate -/
+example (k : Nat) : Fair k (fun _ => ⟨true, List.replicate k true⟩) :=
+  ⟨fun t => ⟨t, Nat.le_refl _, rfl⟩, fun i hi t => ⟨t, Nat.le_refl _, by simp [hi]⟩⟩
+example : Fair 2 (fun t => ⟨t % 3 == 0, [t % 2 == 0, t % 2 == 1]⟩) := by
+  refine ⟨fun t => ⟨3 * t, by omega, by simp⟩, fun i hi t => ?_⟩
+  rcases (by omega : i = 0 ∨ i = 1) with rfl | rfl
+  · exact ⟨2 * t, by omega, by simp⟩
+  · exact ⟨2 * t + 1, by omega, by simp⟩
+/-- and needed: with an unfair schedule (the consumer never comes) nothing is ever written -/
+example : ∀ n ≤ 20, (Isa.run (Isa.init 1) (List.replicate n ⟨true, [false]⟩)).next = 0 := by decide
 
 /-! ### the protocol of the pinned code (before fix 18c0f8e) violates the property -/
 
